@@ -78,7 +78,7 @@ Definition sel_of (d : Z) (c : comp) : option sel :=
   end.
 
 (* X[idx] for X of the given shape; None = NumPy raises (IndexError / ValueError) *)
-Fixpoint np_index (shape : list Z) (idx : list comp) : option view :=
+Fixpoint np_index (shape : list Z) (idx : list comp) {struct idx} : option view :=
   match idx with
   | [] => Some (full shape)
   | c :: idx' =>
